@@ -722,7 +722,7 @@ class RemoteStreamFlowPath(
             return await inner_path.read_text(n=n, encoding=encoding, errors=errors)
         else:
             command = ["head", "-c", str(n)] if n >= 0 else ["cat"]
-            command.append(self.__str__())
+            command.append(shlex.quote(self.__str__()))
             result, status = await self.connector.run(
                 location=self.location, command=command, capture_output=True
             )
